@@ -74,7 +74,7 @@ CLAIMED.update({
    "deterministic simulation: generated internet on the simulated network, seeded hostile-record injection / lame / silent / dead-glue faults, marker-based history oracle, discrete-event clock for timeouts", "4 (C19)"),
  "C11": ("exploration",
    "Seeded catalogs (nested, sibling, look-alike and root zones with zone markers, optional Skip handler in front) and allow/deny sets behind the real Server front gate (guarded hook = the call the socket loops make); 3-14 concurrent requests per run built by the rig's own encoder: valid queries over every opcode / QR / EDNS version / class / type, truncations, single-byte mutations, wrong question counts, random bytes, over UDP and TCP; oracle: 0 responses for short or QR=1 messages, else exactly 1 with the id and QR, NOTIMP / REFUSED / BADVERS / question echo / marker of the longest enclosing zone for constructed-valid requests (reference access-control and longest-suffix models), and a final probe that must still be served.",
-   "The tokio UDP/TCP socket loops themselves (sanitize_src_address, per-connection timeout, task spawning) are replaced by simulator tasks; for corrupted requests only count/id/QR (and NOTIMP for unknown opcodes) are asserted.",
+   "The tokio UDP/TCP socket loops themselves (sanitize_src_address, per-connection timeout, task spawning) are replaced by simulator tasks; second part `tcp-connection`: 1-8 requests pipelined on one simulated TCP connection (seeded chunking / Pending / cut / half-close) through the real server-side TcpStream framing and outbound queue, responses in request order, one per eligible request unless the client resets; for corrupted requests only count/id/QR (and NOTIMP for unknown opcodes) are asserted.",
    "deterministic simulation: concurrent request tasks under the seeded scheduler through the guarded server hook, hostile-input fault classes, reference model of the gate", "4 (C11)"),
  "C03": ("exploration",
    "End-to-end form only: zones with RRsets large enough to meet every limit (0-300 TXT of 1-249 bytes, 0-4200 A, 0-13 NS with padded targets, 0-12 MX) queried with no EDNS or advertised sizes {0..65535}, DO on/off, each query over UDP and as a twin over TCP through the real Server front gate and MessageResponse::encode; invariants per response: UDP length <= max(512, advertised), TCP <= 65535, the bytes walk exactly to their end by the header counts (own wire walker), decode, every UDP section is a prefix of the twin's, TC set iff something (OPT included) was dropped.",
